@@ -209,7 +209,7 @@ def r3(F, R):
         if e is None:
             return None
         for a in e[2]:
-            if a == H["cli_arg"] or (isinstance(a, tuple) and a and a[0] == "with" and a[1] == H["cli_arg"]):
+            if a == H["cli_arg"] or (isinstance(a, tuple) and a and a[0] == "with" and a[1] == H["cli_arg"]) or D.is_variant(a, "runner::basic::Cli"):
                 return a
         return None
     n = 0
@@ -218,6 +218,8 @@ def r3(F, R):
             c = cli_passed(p)
             if c is None:
                 return None
+            if c[0] == "variant":
+                return c[3][cli_fidx[fld]]      # a Cli put together anew (`Cli { retry, .. }` out of a private merge helper)
             return D.Deep.project(c, cli_fidx[fld]) if c[0] == "with" else ("field", c, cli_fidx[fld])
         roles.check_option_merge(R, f"cli-over-builder/{fld}", run, paths, H["cli"](fld), H["builder"](bname), value_of,
                                  f"cli.{fld} = cli.{fld}.or(builder.{bname})")
